@@ -25,6 +25,7 @@ import (
 	"fmt"
 	"os"
 	"sort"
+	"strconv"
 	"strings"
 	"time"
 
@@ -35,7 +36,22 @@ import (
 
 var Prop = &core.Prop{ID: "C15", Run: run, Child: child, Replay: replay}
 
-const rlimitAS = 6 << 30
+// Address-space limits of the children. fd_renumber cases get 6 GiB (a 2^27
+// target is a 1 GiB table that is measured in-process, 2^31-1 is 16 GiB and a
+// clean fatal error) and run four at a time; everything else gets 2 GiB, so
+// that even a tree on which every child runs away cannot exhaust the machine.
+const (
+	rlimitHeavy = 6 << 30
+	rlimitLight = 2 << 30
+)
+
+// parallelism can be lowered for experiments on a busy machine (C15_PAR=n)
+func par(n int) int {
+	if v, err := strconv.Atoi(os.Getenv("C15_PAR")); err == nil && v > 0 && v < n {
+		return v
+	}
+	return n
+}
 
 // checkTable cross-checks the role table against the host module.
 func checkTable(sigs []wasiproxy.Sig) (problems []string) {
@@ -155,7 +171,7 @@ func run(c *core.Ctx) int {
 			vs := valueSets(f, &e)
 			per := perCase
 			if f.chunk == 1 {
-				per = 16
+				per = 4 // a fresh instance per call anyway; small cases keep a child death cheap
 			}
 			if len(f.roles) <= 3 {
 				total := productCount(vs)
@@ -196,23 +212,33 @@ func run(c *core.Ctx) int {
 	}
 
 	// fd_renumber with huge targets really allocates (1 GiB for 2^27): those
-	// cases run four at a time, everything else sixteen at a time
+	// cases run four at a time with a 6 GiB limit, everything else sixteen at a time
 	var heavy, light []caseSpec
 	for _, cs := range b.cases {
+		isHeavy := false
 		if cs.Fn == "fd_renumber" {
+			e := genEnv{size: uint64(cs.Pages) * 65536, av: &argsVariants[cs.ArgsV]}
+			for _, call := range expandCalls(&cs, &e) {
+				if to := call.Args[1]; to >= 1<<21 && to < 1<<31 {
+					isHeavy = true
+				}
+			}
+		}
+		if isHeavy {
 			heavy = append(heavy, cs)
 		} else {
 			light = append(light, cs)
 		}
 	}
 	st := &stats{c: c, byFn: map[string]map[string]int64{}, best: map[string]found{}, occ: map[string]int64{}}
-	runGroup := func(group []caseSpec, par int, label string) {
+	runGroup := func(group []caseSpec, npar int, rlimitAS uint64, label string) {
 		raw := make([]json.RawMessage, len(group))
 		for i := range group {
 			raw[i] = core.J(group[i])
 		}
+		st.rlimit = rlimitAS
 		t0 := time.Now()
-		res := core.RunCases(c, "calls", raw, core.ChildOpts{Batch: 24, TimeoutS: 900, RlimitAS: rlimitAS, Par: par})
+		res := core.RunCases(c, "calls", raw, core.ChildOpts{Batch: 24, TimeoutS: 900, RlimitAS: rlimitAS, Par: npar})
 		c.Extra("phase_"+label+"_s", time.Since(t0).Seconds())
 		var crashed []caseSpec
 		for i, r := range res {
@@ -240,7 +266,7 @@ func run(c *core.Ctx) int {
 			for i := range iso {
 				raw[i] = core.J(iso[i])
 			}
-			res := core.RunCases(c, "isolate", raw, core.ChildOpts{Batch: 8, TimeoutS: 300, RlimitAS: rlimitAS, Par: 4})
+			res := core.RunCases(c, "isolate", raw, core.ChildOpts{Batch: 8, TimeoutS: 300, RlimitAS: rlimitAS, Par: par(3)})
 			reproduced := map[int]bool{}
 			for i, r := range res {
 				if r.Crash != nil && r.Crash.Kind != "timeout" {
@@ -258,8 +284,8 @@ func run(c *core.Ctx) int {
 			}
 		}
 	}
-	runGroup(light, 16, "main")
-	runGroup(heavy, 4, "renumber")
+	runGroup(light, par(16), rlimitLight, "main")
+	runGroup(heavy, par(4), rlimitHeavy, "renumber")
 	st.report()
 
 	// a run that did not reach every function / monitor / configuration is broken
@@ -331,6 +357,7 @@ type stats struct {
 	best         map[string]found
 	occ          map[string]int64
 	deaths       []death
+	rlimit       uint64
 }
 
 // handle folds one case result into the evidence; it returns true if the case
@@ -463,7 +490,7 @@ func (st *stats) report() {
 	}
 	single := map[string]bool{}
 	if len(raw) > 0 {
-		for i, r := range core.RunCases(c, "minimize", raw, core.ChildOpts{Batch: 1, TimeoutS: 300, RlimitAS: rlimitAS, Par: 4}) {
+		for i, r := range core.RunCases(c, "minimize", raw, core.ChildOpts{Batch: 1, TimeoutS: 300, RlimitAS: rlimitHeavy, Par: par(3)}) {
 			var cr caseResult
 			if r.Crash == nil && json.Unmarshal(r.Out, &cr) == nil {
 				for _, f := range cr.Findings {
@@ -542,7 +569,7 @@ func (st *stats) crashViolation(cs *caseSpec, cr *core.Crash, single bool) {
 	}
 	// reported after the in-process findings (report()), so that a measured
 	// witness of the same signature comes first and this one is attached to it
-	st.deaths = append(st.deaths, death{sig, fmt.Sprintf("%s killed the child process (RLIMIT_AS %d GiB): %s: %s", text, rlimitAS>>30, cr.Kind, cr.Detail),
+	st.deaths = append(st.deaths, death{sig, fmt.Sprintf("%s killed the child process (RLIMIT_AS %d GiB): %s: %s", text, st.rlimit>>30, cr.Kind, cr.Detail),
 		map[string]any{"case": cs, "call": text, "state": stateNames[cs.State], "mount": mountNames[cs.Mount], "crash": cr, "log": logTail}})
 }
 
@@ -586,7 +613,7 @@ func replay(c *core.Ctx, path string) int {
 	defer os.RemoveAll(tmp)
 	cs := w.Witness.Case
 	cs.Tmp = tmp
-	res := core.RunCases(c, "replay", []json.RawMessage{core.J(cs)}, core.ChildOpts{Batch: 1, TimeoutS: 300, RlimitAS: rlimitAS, Par: 1})
+	res := core.RunCases(c, "replay", []json.RawMessage{core.J(cs)}, core.ChildOpts{Batch: 1, TimeoutS: 300, RlimitAS: rlimitHeavy, Par: 1})
 	if res[0].Crash != nil {
 		fmt.Printf("child died: %s: %s (log %s)\n", res[0].Crash.Kind, res[0].Crash.Detail, res[0].Crash.Log)
 		return 1
